@@ -239,3 +239,32 @@ Lemma h_dup_facts :
   last_ifs (run (initial_state t0 os_dup) h_dup) = [2] /\
   chk_C18 os_dup (model_history t0 os_dup h_dup) = false.
 Proof. repeat split; vm_compute; reflexivity. Qed.
+
+(* ---- C06: the ghost log on a concrete history ---------------------------------------------------------- *)
+From Mdns Require Import ResponderLogProofs.
+
+Definition h_reg : list step :=
+  [ mkStep t0 None [] [CRegister (c18_svc "Svc0" [ip4 192 168 1 10; ip4 10 2 0 10]) false] ].
+Definition key_svc0 : bytes := lower (b "Svc0._http._tcp.local.").
+
+(* after the registration Svc0 is Announced on eth0 (2) and eth1 (3), the log is not empty, and the
+   ghost invariant yields the announcements in the log *)
+Lemma log_example :
+  let d := state_after (initial_state t0 os_w1) h_reg in
+  (exists ds, In (key_svc0, ds) (d_svcs d) /\ status_get 2 (ds_status ds) = Announced /\ status_get 3 (ds_status ds) = Announced) /\
+  List.length (log_of (initial_state t0 os_w1) h_reg) = 2%nat /\
+  announced_in (log_of (initial_state t0 os_w1) h_reg) key_svc0 2 /\
+  announced_in (log_of (initial_state t0 os_w1) h_reg) key_svc0 3.
+Proof.
+  cbv zeta.
+  assert (HA : AInv ([] ++ log_of (initial_state t0 os_w1) h_reg) (state_after (initial_state t0 os_w1) h_reg))
+    by (apply history_A; intros key ds []).
+  simpl app in HA.
+  assert (Hs : exists ds, In (key_svc0, ds) (d_svcs (state_after (initial_state t0 os_w1) h_reg)) /\
+                          status_get 2 (ds_status ds) = Announced /\ status_get 3 (ds_status ds) = Announced).
+  { destruct (svc_get key_svc0 (d_svcs (state_after (initial_state t0 os_w1) h_reg))) as [ds|] eqn:E.
+    - exists ds. split; [apply svc_get_in; exact E|]. revert E. vm_compute. intros E. inversion E. split; reflexivity.
+    - exfalso. revert E. vm_compute. discriminate. }
+  split; [exact Hs|]. split; [vm_compute; reflexivity|].
+  destruct Hs as (ds & Hin & H2 & H3). destruct (HA _ _ Hin) as [_ Hl]. split; apply Hl; assumption.
+Qed.
